@@ -418,7 +418,23 @@ func init() {
 			f := strings.TrimSpace(strings.Repeat("%v ", len(args))) + "\n"
 			return fr.i.sprintf(fr, f, args)
 		},
-		"fmt.Fprintf":  func(fr *frame, a []value) value { return tuple{0, iface{}} },
+		"fmt.Fprintf": func(fr *frame, a []value) value {
+			// writes into a *strings.Builder are modelled; other writers are sinks
+			if w, ok := a[0].(iface); ok && w.t != nil && w.t.String() == "*strings.Builder" {
+				s := fr.i.sprintf(fr, a[1], a[2].([]value))
+				st := (*w.v.(*value)).(structure)
+				buf, _ := st[1].([]value)
+				if _, opaque := s.(ostring); opaque {
+					st[1] = append(buf, opaqueMark{})
+					return tuple{0, iface{}}
+				}
+				b, _ := strBytes(s)
+				st[1] = append(buf, b...)
+				return tuple{len(b), iface{}}
+			}
+			fr.i.stubs["fmt.Fprintf to a non-Builder writer is a sink"]++
+			return tuple{0, iface{}}
+		},
 		"fmt.Fprintln": func(fr *frame, a []value) value { return tuple{0, iface{}} },
 		"fmt.Fprint":   func(fr *frame, a []value) value { return tuple{0, iface{}} },
 		"fmt.Println":  func(fr *frame, a []value) value { return tuple{0, iface{}} },
